@@ -135,4 +135,4 @@ def main():
              assumptions=["float exponents of mixed-base (SI x IEC) prefixes are outside the exact model; their laws are "
                           "checked numerically at 1e-9 as the property states"])
 
-main()
+guarded(main, "C02")
